@@ -113,7 +113,30 @@ func checkSMHistory(t *fw.T, ops []smOp, label string) {
 			}
 		}
 		res = sm.SourceMap()
-		if peek {
+		if len(ops)%4 == 1 {
+			// another builder is created and used after this one's map was read; then this one's map is read again: builders
+			// share nothing, also not storage they gave back
+			t.Count("histories_followed_by_another_builder_before_a_second_read", 1)
+			other := sourcemap.New()
+			for i, o := range ops {
+				if i >= 40 {
+					break
+				}
+				o2 := o
+				o2.A, o2.B = o.B+1, o.A+2
+				if o2.Op == "named" {
+					o2.Name = o.Name + "_other"
+				}
+				applyReal(other, o2)
+			}
+			other.AddNamedMapping(7, 7, "other_builder")
+			other.SourceMap()
+			if again := sm.SourceMap(); again == nil || again.Mappings != res.Mappings || strings.Join(again.Names, "\x00") != strings.Join(res.Names, "\x00") {
+				res = nil
+				readTwiceDiffers = true
+			}
+		}
+		if peek && res != nil {
 			t.Count("histories_with_intermediate_reads", 1)
 			if again := sm.SourceMap(); again == nil || again.Mappings != res.Mappings || strings.Join(again.Names, "\x00") != strings.Join(res.Names, "\x00") {
 				res = nil
@@ -125,7 +148,7 @@ func checkSMHistory(t *fw.T, ops []smOp, label string) {
 		return
 	}
 	if readTwiceDiffers {
-		t.Violate("read-not-idempotent", label, "two consecutive SourceMap() calls return different maps", wit())
+		t.Violate("read-not-idempotent", label, "a second SourceMap() call on the same builder (directly, or after another builder was used) returns a different map", wit())
 		return
 	}
 	for _, o := range ops {
